@@ -332,7 +332,8 @@ fn gen_writer_cfg(w: &World, kind: Kind, recs: &[Rec], magic: Option<usize>) -> 
     } else {
         None
     };
-    let api = w.draw(3) as u8;
+    // 3 = write() and write_record() alternate on one writer
+    let api = w.draw(4) as u8;
     let flush = w.chance(1, 2);
     let flush_each = w.chance(1, 5);
     WriterCfg {
@@ -427,7 +428,7 @@ fn produce<S: Write>(kind: Kind, cfg: &WriterCfg, recs: &[Rec], sink: S) -> io::
                 if cfg.wrap2.is_some() {
                     wr.set_linewrap(cfg.wrap_for(j));
                 }
-                if cfg.api == 0 {
+                if cfg.api == 0 || cfg.api == 3 && j % 2 == 0 {
                     wr.write(&r.id, r.desc.as_deref(), &r.seq)?;
                 } else {
                     let rec = fasta::Record::with_attrs(&r.id, r.desc.as_deref(), &r.seq);
@@ -459,8 +460,8 @@ fn produce<S: Write>(kind: Kind, cfg: &WriterCfg, recs: &[Rec], sink: S) -> io::
                 1 => fastq::Writer::with_capacity(cfg.cap, sink),
                 _ => fastq::Writer::from_bufwriter(BufWriter::with_capacity(cfg.cap, sink)),
             };
-            for r in recs {
-                if cfg.api == 0 {
+            for (j, r) in recs.iter().enumerate() {
+                if cfg.api == 0 || cfg.api == 3 && j % 2 == 0 {
                     wr.write(&r.id, r.desc.as_deref(), &r.seq, &r.qual)?;
                 } else {
                     let rec = fastq::Record::with_attrs(&r.id, r.desc.as_deref(), &r.seq, &r.qual);
@@ -785,7 +786,7 @@ pub enum Api {
     Mixed(u8),
 }
 
-fn consume_fasta<B: BufRead>(reader: fasta::Reader<B>, api: Api, max_items: usize, p: &mut Parsed) {
+fn consume_fasta<B: BufRead>(w: &World, reader: fasta::Reader<B>, api: Api, max_items: usize, p: &mut Parsed) {
     let mut reader = reader;
     let k = match api {
         Api::Iter => 0,
@@ -818,7 +819,7 @@ fn consume_fasta<B: BufRead>(reader: fasta::Reader<B>, api: Api, max_items: usiz
                 return;
             }
         }
-        if p.items > max_items {
+        if p.items > max_items + w.eintr_total.get() as usize {
             return;
         }
     }
@@ -832,7 +833,7 @@ fn consume_fasta<B: BufRead>(reader: fasta::Reader<B>, api: Api, max_items: usiz
                     Ok(r) => p.recs.push(from_fa(&r)),
                     Err(e) => p.errs.push((p.items - 1, is_eintr_io(&e), e.to_string())),
                 }
-                if p.items > max_items {
+                if p.items > max_items + w.eintr_total.get() as usize {
                     return;
                 }
             }
@@ -844,7 +845,7 @@ fn consume_fasta<B: BufRead>(reader: fasta::Reader<B>, api: Api, max_items: usiz
     }
 }
 
-fn consume_fastq<B: BufRead>(reader: fastq::Reader<B>, api: Api, max_items: usize, p: &mut Parsed) {
+fn consume_fastq<B: BufRead>(w: &World, reader: fastq::Reader<B>, api: Api, max_items: usize, p: &mut Parsed) {
     let mut reader = reader;
     let k = match api {
         Api::Iter => 0,
@@ -878,7 +879,7 @@ fn consume_fastq<B: BufRead>(reader: fastq::Reader<B>, api: Api, max_items: usiz
                 return;
             }
         }
-        if p.items > max_items {
+        if p.items > max_items + w.eintr_total.get() as usize {
             return;
         }
     }
@@ -895,7 +896,7 @@ fn consume_fastq<B: BufRead>(reader: fastq::Reader<B>, api: Api, max_items: usiz
                     }
                     Err(e) => p.errs.push((p.items - 1, is_eintr_fq(&e), e.to_string())),
                 }
-                if p.items > max_items {
+                if p.items > max_items + w.eintr_total.get() as usize {
                     return;
                 }
             }
@@ -907,7 +908,7 @@ fn consume_fastq<B: BufRead>(reader: fastq::Reader<B>, api: Api, max_items: usiz
     }
 }
 
-fn consume_either<B: BufRead>(mut it: fastx::EitherRecords<B>, ask_kind: bool, max_items: usize, p: &mut Parsed) {
+fn consume_either<B: BufRead>(w: &World, mut it: fastx::EitherRecords<B>, ask_kind: bool, max_items: usize, p: &mut Parsed) {
     use fastx::Record as _;
     if ask_kind {
         p.kind_reported = Some(match it.kind() {
@@ -957,7 +958,7 @@ fn consume_either<B: BufRead>(mut it: fastx::EitherRecords<B>, ask_kind: bool, m
                 p.errs.push((p.items - 1, eintr, format!("{:?}", e)));
             }
         }
-        if p.items > max_items {
+        if p.items > max_items + w.eintr_total.get() as usize {
             return;
         }
     }
@@ -1048,17 +1049,17 @@ fn consumer_phase(w: &W, kind: Kind, data: &Rc<Vec<u8>>, rc: &ReaderCfg) -> (Par
             let src = SimRead::new(w, data.clone(), rc.io, "src");
             cuts = src.cuts.clone();
             match (kind, rc.ctor) {
-                (Kind::Fasta, 0) => consume_fasta(fasta::Reader::new(src), rc.api, max_items, &mut p),
-                (Kind::Fasta, 1) => consume_fasta(fasta::Reader::with_capacity(rc.cap, src), rc.api, max_items, &mut p),
-                (Kind::Fasta, _) => consume_fasta(
+                (Kind::Fasta, 0) => consume_fasta(w, fasta::Reader::new(src), rc.api, max_items, &mut p),
+                (Kind::Fasta, 1) => consume_fasta(w, fasta::Reader::with_capacity(rc.cap, src), rc.api, max_items, &mut p),
+                (Kind::Fasta, _) => consume_fasta(w, 
                     fasta::Reader::from_bufread(BufReader::with_capacity(rc.cap, src)),
                     rc.api,
                     max_items,
                     &mut p,
                 ),
-                (Kind::Fastq, 0) => consume_fastq(fastq::Reader::new(src), rc.api, max_items, &mut p),
-                (Kind::Fastq, 1) => consume_fastq(fastq::Reader::with_capacity(rc.cap, src), rc.api, max_items, &mut p),
-                (Kind::Fastq, _) => consume_fastq(
+                (Kind::Fastq, 0) => consume_fastq(w, fastq::Reader::new(src), rc.api, max_items, &mut p),
+                (Kind::Fastq, 1) => consume_fastq(w, fastq::Reader::with_capacity(rc.cap, src), rc.api, max_items, &mut p),
+                (Kind::Fastq, _) => consume_fastq(w, 
                     fastq::Reader::from_bufread(BufReader::with_capacity(rc.cap, src)),
                     rc.api,
                     max_items,
@@ -1070,21 +1071,21 @@ fn consumer_phase(w: &W, kind: Kind, data: &Rc<Vec<u8>>, rc: &ReaderCfg) -> (Par
             let src = SimBufRead::new(w, data.clone(), rc.io, "src");
             cuts = src.cuts.clone();
             match kind {
-                Kind::Fasta => consume_fasta(fasta::Reader::from_bufread(src), rc.api, max_items, &mut p),
-                Kind::Fastq => consume_fastq(fastq::Reader::from_bufread(src), rc.api, max_items, &mut p),
+                Kind::Fasta => consume_fasta(w, fasta::Reader::from_bufread(src), rc.api, max_items, &mut p),
+                Kind::Fastq => consume_fastq(w, fastq::Reader::from_bufread(src), rc.api, max_items, &mut p),
             }
         }
         4 => {
             let src = SimBufRead::new(w, data.clone(), rc.io, "src");
             cuts = src.cuts.clone();
             w.probe("sniffer_used");
-            consume_either(fastx::EitherRecords::new(src), rc.ask_kind, max_items, &mut p);
+            consume_either(w, fastx::EitherRecords::new(src), rc.ask_kind, max_items, &mut p);
         }
         5 => {
             let src = SimRead::new(w, data.clone(), rc.io, "src");
             cuts = src.cuts.clone();
             w.probe("sniffer_used");
-            consume_either(
+            consume_either(w, 
                 fastx::EitherRecords::new(BufReader::with_capacity(rc.cap, src)),
                 rc.ask_kind,
                 max_items,
@@ -1103,8 +1104,8 @@ fn consumer_phase(w: &W, kind: Kind, data: &Rc<Vec<u8>>, rc: &ReaderCfg) -> (Par
                     };
                     p.kind_reported = Some(Ok(k));
                     match k {
-                        Kind::Fasta => consume_fasta(fasta::Reader::with_capacity(rc.cap, chain), rc.api, max_items, &mut p),
-                        Kind::Fastq => consume_fastq(fastq::Reader::with_capacity(rc.cap, chain), rc.api, max_items, &mut p),
+                        Kind::Fasta => consume_fasta(w, fasta::Reader::with_capacity(rc.cap, chain), rc.api, max_items, &mut p),
+                        Kind::Fastq => consume_fastq(w, fastq::Reader::with_capacity(rc.cap, chain), rc.api, max_items, &mut p),
                     }
                 }
                 Err(e) => {
@@ -1141,8 +1142,8 @@ fn consumer_phase(w: &W, kind: Kind, data: &Rc<Vec<u8>>, rc: &ReaderCfg) -> (Par
                     };
                     p.kind_reported = Some(Ok(k));
                     match k {
-                        Kind::Fasta => consume_fasta(fasta::Reader::with_capacity(rc.cap, src), rc.api, max_items, &mut p),
-                        Kind::Fastq => consume_fastq(fastq::Reader::with_capacity(rc.cap, src), rc.api, max_items, &mut p),
+                        Kind::Fasta => consume_fasta(w, fasta::Reader::with_capacity(rc.cap, src), rc.api, max_items, &mut p),
+                        Kind::Fastq => consume_fastq(w, fastq::Reader::with_capacity(rc.cap, src), rc.api, max_items, &mut p),
                     }
                 }
                 Err(e) => {
@@ -1201,7 +1202,8 @@ fn first_diff(a: &[Rec], b: &[Rec]) -> String {
 /// The round-trip oracle (strict, or relaxed for EINTR exactly as DESIGN §4.1 states).
 fn check_roundtrip(w: &World, clause: &'static str, p: &Parsed, expected: &[Rec], eintr_on: bool) -> Verdict {
     w.clause(clause);
-    if p.items > expected.len() + 2 && !p.ended {
+    // every error item of kind Interrupted needs an injected EINTR of its own (see the EINTR relaxation)
+    if p.items > expected.len() + 2 + w.eintr_total.get() as usize && !p.ended {
         return fail(
             "C11.d-livelock",
             format!("iterator yielded {} items for a file of {} records without ending", p.items, expected.len()),
@@ -1309,7 +1311,7 @@ fn roundtrip(w: &W, kind: Kind, with_cut: bool) -> Verdict {
         w.note(
             "writer",
             json!({"ctor": (["new","with_capacity","from_bufwriter"][wcfg.ctor as usize]), "cap": wcfg.cap, "linewrap": wcfg.wrap, "linewrap_for_odd_records": format!("{:?}", wcfg.wrap2),
-                   "api": (["write","write_record","Display"][wcfg.api as usize]), "explicit_flush": wcfg.flush, "flush_after_each_record": wcfg.flush_each}),
+                   "api": (["write","write_record","Display","write / write_record alternating"][wcfg.api as usize]), "explicit_flush": wcfg.flush, "flush_after_each_record": wcfg.flush_each}),
         );
     }
     // swarm: which fault kinds are enabled this run
